@@ -27,8 +27,8 @@ import threading
 from . import lib
 
 AREA = "Wallet"
-INVS = ["Durable", "Atomic", "OneCommit", "OkMeansComplete", "FaultMeansErrOrComplete", "NoDanglingTx", "Snapshot",
-        "CrashAtomic", "RetryConverges"]
+INVS = ["Atomic", "OneCommit", "OkMeansComplete", "FaultMeansErrOrComplete", "NoDanglingTx", "Snapshot",
+        "CrashAtomic", "RetryConverges", "Durable"]
 SPEC_MUTANTS = ["StmtOutsideTxn", "CommitOnErr", "SwallowError", "TwoTxns", "ReaderNoTxn"]
 SHARDS = 8
 
